@@ -415,6 +415,23 @@ class TemplateClass(ClassDef):
 		return self._by('template_assign_covariant')._at(0).as_a(Boolean)
 
 
+def _outer_scope_tag(via: Node) -> str:
+	"""直近の外側スコープのタグを取得
+
+	Args:
+		via: ノード(function_def)
+	Returns:
+		'class_def_raw' | 'function_def_raw' | ''(モジュール直下)
+	Note:
+		if/for/try等のブロックはスコープを作らないため読み飛ばす
+	"""
+	for elem in reversed(via._full_path.de_identify().elements[:-1]):
+		if elem in ['class_def_raw', 'function_def_raw']:
+			return elem
+
+	return ''
+
+
 @Meta.embed(Node, accept_tags('function_def'))
 class Function(ClassDef):
 	@property
@@ -492,8 +509,11 @@ class ClassMethod(Function):
 	@override
 	def match_feature(cls, via: Node) -> bool:
 		# @see ClassDef.decorators
+		if _outer_scope_tag(via) != 'class_def_raw':
+			return False
+
 		decorators = via._children('decorators') if via._exists('decorators') else []
-		return len(decorators) > 0 and decorators[0].as_a(Decorator).path.tokens == 'classmethod'
+		return 'classmethod' in [decorator.as_a(Decorator).path.tokens for decorator in decorators]
 
 	@property
 	def is_abstract(self) -> bool:
@@ -514,7 +534,7 @@ class Constructor(Function):
 	@override
 	def match_feature(cls, via: Node) -> bool:
 		# @see Function.symbol
-		return via._by('function_def_raw.name').tokens == '__init__'
+		return _outer_scope_tag(via) == 'class_def_raw' and via._by('function_def_raw.name').tokens == '__init__'
 
 	@property
 	def is_abstract(self) -> bool:
@@ -535,7 +555,7 @@ class Method(Function):
 	@override
 	def match_feature(cls, via: Node) -> bool:
 		# @see Function.symbol
-		if via._by('function_def_raw.name').tokens == '__init__':
+		if _outer_scope_tag(via) != 'class_def_raw' or via._by('function_def_raw.name').tokens == '__init__':
 			return False
 
 		# @see Function.parameters
@@ -567,10 +587,7 @@ class Closure(Function):
 	@classmethod
 	@override
 	def match_feature(cls, via: Node) -> bool:
-		elems = via._full_path.de_identify().elements
-		is_function = 'class_def_raw' not in elems and 'function_def_raw' not in elems
-		is_method = not is_function and elems[-3] == 'class_def_raw'
-		return not is_function and not is_method
+		return _outer_scope_tag(via) == 'function_def_raw'
 
 	def ref_vars(self) -> list[Var]:
 		ignore_names = [var.symbol.domain_name for var in self.decl_vars]
